@@ -40,6 +40,20 @@ class Infra(Exception):
     """Infrastructure trouble: never a verdict (exit 2)."""
 
 
+class Rerun(Exception):
+    """Some candidates did not reproduce when re-executed alone in a fresh process. The whole check is run a second
+    time; a candidate that shows up again in that second, identical run is a violation that depends on the executions
+    before it (state kept across calls), reported as sequence-dependent."""
+
+    def __init__(self, keys):
+        Exception.__init__(self, "rerun")
+        self.keys = keys
+
+
+def cand_key(c):
+    return json.dumps(c["sig"], sort_keys=True)
+
+
 def log(*a):
     print(*a, file=sys.stderr, flush=True)
 
@@ -71,6 +85,30 @@ class Ctx:
         self.tlc_runs = []
         self.exhaustive = False
         self.rule = ""
+        self.unconfirmed = []     # candidates that did not reproduce alone
+        self.second_pass = None   # set of candidate keys that did not reproduce alone in the first pass
+
+    # ------------------------------------------------------------- confirmation
+    def keep_confirmed(self, cands, conf):
+        """Returns the candidates that conf() reproduces alone in a fresh process; the others are remembered: if this
+        is the second pass and the candidate was also seen in the first, it is confirmed as sequence-dependent."""
+        out = []
+        notest = bool(os.environ.get("VERIF_SELFTEST_NOCONFIRM"))   # selftest of the second-pass path: pretend nothing reproduces alone
+        for c in cands:
+            if not notest and conf(c):
+                out.append(c)
+            elif self.second_pass is not None and cand_key(c) in self.second_pass:
+                c["what"] = "[reproduces only after the executions that precede it in the check's sequence] " + c.get("what", "")
+                c["record"] = dict(c.get("record") or {}, sequence_dependent=True)
+                out.append(c)
+            else:
+                self.unconfirmed.append(c)
+        return out
+
+    def keep_confirmed_batch(self, cands, batchfn):
+        oks = batchfn(cands) if cands else []
+        it = iter(oks)
+        return self.keep_confirmed(cands, lambda c: next(it))
 
     # ------------------------------------------------------------------ harness
     def build_harness(self, race=False):
@@ -113,7 +151,7 @@ class Ctx:
         if p.returncode not in (0, 1) and check:
             raise Infra("harness %s failed rc=%d:\n%s\n%s" % (args, p.returncode, p.stdout[-4000:], p.stderr[-4000:]))
         res = None
-        for line in reversed(p.stdout.strip().splitlines()):
+        for line in reversed(p.stdout.strip().split("\n")):
             line = line.strip()
             if line.startswith("{"):
                 try:
@@ -235,7 +273,7 @@ class Ctx:
                             % (r["name"], ntr, r["distinct"], expect))
             accepted += ntr - len(rejected)
             if rejected:
-                lines = open("%s.replay.%d" % (base, k)).read().splitlines()
+                lines = open("%s.replay.%d" % (base, k)).read().split("\n")
                 for tid, verdict in sorted(rejected.items()):
                     rec = json.loads(lines[tid - 1])
                     sig = {"class": verdict}
@@ -272,36 +310,24 @@ class Ctx:
         outroot = os.path.join(self.scratch, "out") if os.environ.get("VERIF_NO_EVIDENCE") else VERIF
         vdir = os.path.join(outroot, "violations", self.prop)
         confirmed = []
-        unreproduced = 0
         seen = set()
-        if confirm_batch is not None and self.candidates:
-            uniq = []
-            for c in self.candidates:
-                key = json.dumps(c["sig"], sort_keys=True)
-                if key not in seen:
-                    seen.add(key)
-                    uniq.append(c)
-            uniq = uniq[:400]
-            oks = confirm_batch(uniq)
-            for c, ok in zip(uniq, oks):
-                if ok:
-                    confirmed.append(c)
-                else:
-                    unreproduced += 1
-            self.candidates = []
+        uniq = []
         for c in self.candidates:
-            key = json.dumps(c["sig"], sort_keys=True)
-            if key in seen:
-                continue
-            seen.add(key)
-            if len(confirmed) >= 200:
-                break
-            if confirm is not None:
-                ok = confirm(c)
-                if not ok:
-                    unreproduced += 1
-                    continue
-            confirmed.append(c)
+            key = cand_key(c)
+            if key not in seen:
+                seen.add(key)
+                uniq.append(c)
+        if confirm_batch is not None:
+            confirmed = self.keep_confirmed_batch(uniq[:400], confirm_batch)
+        elif confirm is not None:
+            confirmed = self.keep_confirmed(uniq[:200], confirm)
+        else:
+            confirmed = uniq[:200]
+        if self.unconfirmed and self.second_pass is None and not os.environ.get("VERIF_NO_RERUN"):
+            log("%d candidate(s) did not reproduce alone; running the check a second time to see whether they depend on the preceding executions"
+                % len(self.unconfirmed))
+            raise Rerun({cand_key(c) for c in self.unconfirmed})
+        unreproduced = len(self.unconfirmed)
         violations = []
         matched = {}
         for c in confirmed:
@@ -494,7 +520,7 @@ def main_guard(fn):
     except Infra as e:
         log("INFRASTRUCTURE:", e)
         sys.exit(2)
-    except SystemExit:
+    except (SystemExit, Rerun):
         raise
     except BaseException:
         import traceback
